@@ -158,3 +158,73 @@ class Env:
                 if isinstance(t, str) and t in self.defs and self.defs[t][0] in ("record", "enum", "flags"):
                     out.append("(%s, %s)" % (cstr(q), cstr(t)))
         return clist(out)
+
+
+# ------------------------------------------------------------------------------------------ ymodel.T objects from model.json
+def to_T(env, t, sigma=None, depth=0):
+    """the harness' structural type (ymodel.T: value generator, reference encoder) of a model.json type"""
+    import ymodel
+    T = ymodel.T
+    sigma = sigma or {}
+    if depth > 60:
+        raise Unknown("expansion too deep")
+    if isinstance(t, str) or (isinstance(t, dict) and "name" in t):
+        name = t if isinstance(t, str) else t["name"]
+        args = [] if isinstance(t, str) else [to_T(env, a, sigma, depth + 1) for a in t.get("typeArguments", [])]
+        if name in sigma and not args:
+            return sigma[name]
+        if name in PRIMS and not args:
+            return ymodel.prim(name)
+        if name not in env.defs:
+            raise Unknown("unknown reference " + name)
+        kind, d = env.defs[name]
+        sig = dict(zip(d.get("typeParameters", []), args))
+        if kind == "alias":
+            return to_T(env, d["type"], sig, depth + 1)
+        if kind == "record":
+            return T("rec", name, name=name, fields=[(f["name"], to_T(env, f["type"], sig, depth + 1)) for f in d["fields"]])
+        base = d.get("base")
+        bp = to_T(env, base, {}, depth + 1).p if base is not None else "int32"
+        return T("enum", name, base=bp, name=name, symbols=[(v["symbol"], int(v["value"])) for v in d["values"]], is_flags=kind == "flags")
+    if isinstance(t, list):
+        has_null = any(c is None for c in t)
+        cases = []
+        for c in t:
+            if c is None:
+                continue
+            if isinstance(c, dict) and set(c.keys()) == {"tag", "type"}:
+                c = c["type"]
+            cases.append(to_T(env, c, sigma, depth + 1))
+        if has_null and len(cases) == 1:
+            return T("opt", "opt", e=cases[0])
+        return T("union", "union", has_null=has_null, cases=cases, tags=[])
+    k, v = next(iter(t.items()))
+    if k == "vector":
+        e = to_T(env, v["items"], sigma, depth + 1)
+        return T("fixvec", "fixvec", n=v["length"], e=e) if v.get("length") is not None else T("vec", "vec", e=e)
+    if k == "array":
+        e = to_T(env, v["items"], sigma, depth + 1)
+        d = v.get("dimensions")
+        if d is None:
+            return T("dynarr", "dynarr", e=e)
+        dims = [None] * d if isinstance(d, int) else [x.get("length") for x in d]
+        if dims and all(x is not None for x in dims):
+            return T("fixarr", "fixarr", dims=dims, e=e)
+        return T("arr", "arr", rank=len(dims), e=e)
+    if k == "map":
+        return T("map", "map", k=to_T(env, v["keys"], sigma, depth + 1), e=to_T(env, v["values"], sigma, depth + 1))
+    raise Unknown("type %r" % (t,))
+
+
+def proto_steps(env, pname):
+    """[(name, T, is_stream, Coq estep term)] of a protocol (unqualified name)"""
+    for q, p in env.protos:
+        if q.split(".")[-1] == pname:
+            out = []
+            for s in p["sequence"]:
+                t = s["type"]
+                st = isinstance(t, dict) and set(t.keys()) == {"stream"}
+                inner = t["stream"]["items"] if st else t
+                out.append((s["name"], to_T(env, inner), st, "(%s, %s, %s)" % (cstr(s["name"]), "true" if st else "false", env.expand(inner, {})[0])))
+            return out
+    raise Unknown("no protocol " + pname)
